@@ -238,6 +238,7 @@ fn kind_of(e: &std::io::Error) -> ErrorKind {
 
 /// Runs one case on the real code.  Err = violation description.
 pub fn run_case(case: &Case) -> Result<(), String> {
+    set_breadcrumb(format!("case: {}\n", case.render()).as_bytes());
     match catch(|| run_case_inner(case)) {
         Ok(r) => r,
         Err(p) => Err(format!("panic: {}", p)),
@@ -549,5 +550,12 @@ fn main() {
         run,
         replay,
         assumptions: |_| vec!["readers honour Read's contract (never report more than the buffer length)".into(), "codec outputs are compared with the reference encoder of mc_core::refcodec".into()],
+        decode_breadcrumb: Some(|ctx, bytes| {
+            let text = String::from_utf8_lossy(bytes).to_string();
+            if text.trim().is_empty() {
+                return None;
+            }
+            Some((format!("{}:abort:{}", ctx.prop, text.trim().replace(['\n', ' '], ";")), text))
+        }),
     });
 }
